@@ -36,6 +36,21 @@ from .values import (  # noqa: F401
     neg,
 )
 
+def count_ev(trace, name):
+    return sum(1 for ev in trace if ev[0] == name)
+
+
+def ev_args(trace, name):
+    return [tuple(ev[1:]) for ev in trace if ev[0] == name]
+
+
+def ev_before(trace, first, then):
+    """Every `first` event precedes every `then` event (and both occur)."""
+    fi = [i for i, ev in enumerate(trace) if ev[0] == first]
+    ti = [i for i, ev in enumerate(trace) if ev[0] == then]
+    return bool(fi) and bool(ti) and max(fi) < min(ti)
+
+
 REGISTRY: dict = {}
 PROTOCOLS: dict = {}
 
@@ -120,7 +135,17 @@ class Contract:
         st.oblige(f"{ip.task.name}/{where}", pre if isinstance(pre, (SBool, bool)) else mk_bool(V._zb(pre)), "call-pre")
         # exceptional outcomes
         excs = list(self.raises)
-        if excs:
+        riff = getattr(self, "raises_iff", None)
+        if riff is not None:
+            excs = list(riff)
+            conds = [riff[e](self_obj, a) if self_obj is not None else riff[e](a) for e in excs]
+            conds = [cnd if isinstance(cnd, (SBool, bool)) else mk_bool(V._zb(cnd)) for cnd in conds]
+            none = both(*[neg(cnd) for cnd in conds])
+            k = st.choose([none] + conds)
+            if k > 0:
+                exc = SExc(excs[k - 1], ("<from callee contract>",), site=f"callee {f.ref.qualname}")
+                raise PyRaise(exc)
+        elif excs:
             k = st.fork(len(excs) + 1)
             if k > 0:
                 exc = SExc(excs[k - 1], ("<from callee contract>",), site=f"callee {f.ref.qualname}")
@@ -131,15 +156,31 @@ class Contract:
                     st.assume(fml)
                 raise PyRaise(exc)
         old = self_obj.snapshot() if self_obj is not None else None
+        saved_trace = None
         if self_obj is not None:
             self.havoc(st, self_obj)
+            # the callee's contract speaks about the events of *this* call only
+            saved_trace = list(self_obj.trace)
+            self_obj.trace.clear()
+            old.trace.clear()
         if self.pure_spec is not None:
             result = self.pure_spec(a) if self_obj is None else self.pure_spec(old, a)
         else:
             result = self.result.fresh(st, f"r_{f.ref.node.name}") if self.result is not None else None
+        if self_obj is not None:
+            ev = getattr(self, "log_event", None)
+            if ev:
+                self_obj.trace.append((ev, *[vals[k] for k in vals]))
+            eff = getattr(self, "effects", None)
+            if eff is not None:
+                eff(old, self_obj, a, result)
         ens = self.ensures(old, self_obj, a, result) if self_obj is not None else self.ensures(a, result)
         for _label, fml in self._gen(ens):
             st.assume(fml if isinstance(fml, (SBool, bool)) else mk_bool(V._zb(fml)))
+        if self_obj is not None:
+            delta = list(self_obj.trace)
+            self_obj.trace.clear()
+            self_obj.trace.extend(saved_trace + delta)
         ip.task.used_contracts.add(self.target)
         return result
 
@@ -169,7 +210,7 @@ def contract(target, property=None, **kw):  # noqa: A002
         ns.update(kw)
         ns["target"] = target
         ns["property"] = property
-        for fn in ("requires", "ensures", "on_raise", "pure_spec", "native_call", "make_self", "observe"):
+        for fn in ("requires", "ensures", "on_raise", "pure_spec", "native_call", "make_self", "observe", "effects", "invariant"):
             if fn in ns and inspect.isfunction(ns[fn]):
                 ns[fn] = staticmethod(ns[fn])
         C = type(cls.__name__, (Contract,), ns)
